@@ -342,6 +342,41 @@ def cmdSliceCheck (args : List String) : String :=
     | .copy f c => s!"copy {f.toInt} {c.toInt}"
   | _ => "bad-request"
 
+/-! ### operator table (C02) -/
+open DDP.Checker in
+def parseOp (s : String) : Option Op :=
+  match s with
+  | "UN_ABS" => some .abs | "UN_NEGATE" => some .negate | "UN_NOT" => some .not | "UN_LOGIC_NOT" => some .logicNot
+  | "UN_LEN" => some .len | "BIN_AND" => some .and | "BIN_OR" => some .or | "BIN_XOR" => some .xor
+  | "BIN_CONCAT" => some .concat | "BIN_PLUS" => some .plus | "BIN_MINUS" => some .minus | "BIN_MULT" => some .mult
+  | "BIN_DIV" => some .div | "BIN_INDEX" => some .index | "BIN_POW" => some .pow | "BIN_LOG" => some .log
+  | "BIN_LOGIC_AND" => some .logicAnd | "BIN_LOGIC_OR" => some .logicOr | "BIN_LOGIC_XOR" => some .logicXor
+  | "BIN_MOD" => some .mod | "BIN_LEFT_SHIFT" => some .shl | "BIN_RIGHT_SHIFT" => some .shr
+  | "BIN_EQUAL" => some .eq | "BIN_UNEQUAL" => some .ne | "BIN_LESS" => some .lt | "BIN_GREATER" => some .gt
+  | "BIN_LESS_EQ" => some .le | "BIN_GREATER_EQ" => some .ge | "BIN_SLICE_TO" => some .sliceTo
+  | "BIN_SLICE_FROM" => some .sliceFrom | "TER_SLICE" => some .slice | "TER_BETWEEN" => some .between
+  | "TER_FALLS" => some .falls | _ => none
+
+open DDP.Lowering in
+def showIr : IrTy → String
+  | .int => "int" | .float => "float" | .byte => "byte" | .bool => "bool" | .char => "char" | .string => "string"
+  | .any => "any" | .void => "void" | .struct i => s!"struct{i}" | .list e => "list(" ++ showIr e ++ ")"
+
+/-- `optab <op> <type>…`: checker verdict and result type, IR types, lowering result -/
+def cmdOptab (args : List String) : String :=
+  match args with
+  | op :: tys =>
+    match parseOp op, tys.mapM (fun t => match parseTy t.toList with | some (t, []) => some t | _ => none) with
+    | some op, some tys =>
+      let adm := Checker.admits op tys
+      let irs := tys.mapM Lowering.toIr
+      let low := irs.bind (Lowering.lowerTy op)
+      let tauIr := adm.bind Lowering.toIr
+      let so {α} (f : α → String) : Option α → String := fun o => match o with | some a => f a | none => "none"
+      s!"admits={so showTy adm} lower={so showIr low} tauir={so showIr tauIr} irs={so (fun l => ",".intercalate (l.map showIr)) irs}"
+    | _, _ => "bad-request"
+  | _ => "bad-request"
+
 def dispatch (line : String) : String :=
   match (line.splitOn " ").filter (· ≠ "") with
   | "scan" :: args => cmdScan args
@@ -349,6 +384,7 @@ def dispatch (line : String) : String :=
   | "trie" :: args => cmdTrie args
   | "types" :: args => cmdTypes args
   | "lit" :: args => cmdLit args
+  | "optab" :: args => cmdOptab args
   | "idxcheck" :: args => cmdIdxCheck args
   | "slicecheck" :: args => cmdSliceCheck args
   | "show" :: args => cmdText "show" args
